@@ -542,6 +542,63 @@ def dump(xtuml, m, with_links=True):
     return {'classes': classes, 'assocs': assocs}
 
 
+def spec_dump(spec):
+    """the canonical description (the form of `dump`) computed from the SPEC alone, without any metamodel: what was put in.
+    Classes, attribute lists and identifiers as declared; rows per class in creation order; a plain / identifying attribute
+    holds the given value; a referential attribute reads the identifying value of the instance linked across its association
+    (the association formalised last first), the null value when there is none; links as listed."""
+    classes_in = spec['classes']
+    ukind = [c['kind'].upper() for c in classes_in]
+    local = {}
+    count = [0] * len(classes_in)
+    for ri, r in enumerate(spec['rows']):
+        local[ri] = count[r['ci']]
+        count[r['ci']] += 1
+    # referential attribute -> [(association index, target key name)], later associations first
+    refs = {}
+    for ai, a in enumerate(spec['assocs']):
+        for sk, tk in zip(a['src']['keys'], a['tgt']['keys']):
+            refs.setdefault((a['src']['ci'], sk), []).insert(0, (ai, tk))
+    link_of = {}
+    for l in spec['links']:
+        link_of.setdefault((l['assoc'], l['src']), l['tgt'])
+
+    def value(ri, name, depth=0):
+        r = spec['rows'][ri]
+        names = [a[0] for a in classes_in[r['ci']]['attrs']]
+        for ai, tk in refs.get((r['ci'], name), []) if depth < 50 else []:
+            t = link_of.get((ai, ri))
+            if t is not None:
+                return value(t, tk, depth + 1)
+        if (r['ci'], name) in refs:
+            return None
+        return r['vals'][names.index(name)]
+
+    classes = {}
+    for ci, c in enumerate(classes_in):
+        idents = {}
+        for nm, attrs in c['idents']:
+            if attrs:
+                idents['I%d' % nm if isinstance(nm, int) else nm] = list(attrs)
+        classes[ukind[ci]] = {'kind_upper': ukind[ci], 'attrs': [[nm, ty.upper()] for nm, ty in c['attrs']],
+                              'idents': sorted([nm, attrs] for nm, attrs in idents.items()), 'rows': []}
+    for ri, r in enumerate(spec['rows']):
+        c = classes_in[r['ci']]
+        classes[ukind[r['ci']]]['rows'].append([canon_value(value(ri, nm), ty) for nm, ty in c['attrs']])
+    assocs = []
+    for ai, a in enumerate(spec['assocs']):
+        s, t = a['src'], a['tgt']
+        pairs = sorted(set(((ukind[s['ci']], local[l['src']]), (ukind[t['ci']], local[l['tgt']]))
+                           for l in spec['links'] if l['assoc'] == ai))
+        links = [[list(x), list(y)] for x, y in pairs]
+        assocs.append({'rel': 'R%d' % a['rel'],
+                       'src': [ukind[s['ci']], list(s['keys']), bool(s['many']), bool(s['cond']), s['phrase']],
+                       'tgt': [ukind[t['ci']], list(t['keys']), bool(t['many']), bool(t['cond']), t['phrase']],
+                       'links': links, 'links_back': links})
+    assocs.sort(key=lambda d: repr((d['rel'], d['src'], d['tgt'])))
+    return {'classes': classes, 'assocs': assocs}
+
+
 def diff(a, b, path=''):
     """first difference between two dumps as a short text, or None"""
     if type(a) != type(b):
